@@ -4,6 +4,8 @@
   ties to `lumicks/pylake/population/detail/hmm.py` and `population/dwelltime.py` on every run.
 -/
 import Verif.Lemmas.C16
+import Verif.Lemmas.C16EM
+import Verif.Lemmas.C16FR
 
 namespace Verif.C16
 open Verif.Py
@@ -94,6 +96,84 @@ theorem dwells_all (path : List Int) (exclude : Bool) :
   | false => simp [(dwells_partition path s).1]
   | true => simp [dwells_exclude_ends path s ((dwells_keys path s).mp hs)]
 
+/-- **Conservation of samples.**  The dwell counts returned for all states together add up to the
+    total length of the runs kept: with `exclude_ambiguous_dwells=False` that is the length of the
+    trace (every sample is counted exactly once); with `True` it is the trace length minus the
+    lengths of the first and the last run. -/
+theorem dwell_counts_conserve (path : List Int) (exclude : Bool) (d : List (Int × List (Nat × Nat)))
+    (h : dwells path exclude = some d) :
+    totalCounts d = ((if exclude then (rle path).tail.dropLast else rle path).map Run.len).sum ∧
+    ((rle path).map Run.len).sum = path.length ∧
+    (exclude = false → totalCounts d = path.length) ∧
+    (∀ f mid l, rle path = f :: (mid ++ [l]) → exclude = true →
+      totalCounts d + f.len + l.len = path.length) := by
+  have hc : Contig 0 path.length (rle path) := (dwells_partition path 0).2.1
+  have hT : ((rle path).map Run.len).sum = path.length := by
+    have := contig_sum_len _ _ _ hc; simpa using this
+  rw [dwells_all path exclude, Option.some.injEq] at h
+  have hsub : ∀ r ∈ (if exclude then (rle path).tail.dropLast else rle path), r.state ∈ uniq path := by
+    intro r hr
+    apply (dwells_keys path r.state).mpr
+    apply rle_state_mem path r
+    cases exclude with
+    | false => simpa using hr
+    | true => exact List.mem_of_mem_tail (List.mem_of_mem_dropLast (by simpa using hr))
+  have e1 : totalCounts d
+      = ((if exclude then (rle path).tail.dropLast else rle path).map Run.len).sum := by
+    rw [← h, ← sum_by_state (uniq path) (uniq_nodup path) _ hsub]
+    simp only [totalCounts, List.map_map, Function.comp_def, dwellCounts_sum]
+  refine ⟨e1, hT, ?_, ?_⟩
+  · intro he; rw [e1, he]; simpa using hT
+  · intro f mid l hr he
+    subst he
+    rw [e1]
+    simp only [if_true, hr, List.tail_cons, List.dropLast_concat]
+    rw [hr] at hT
+    simp only [List.map_cons, List.map_append, List.sum_cons, List.sum_append, List.map_nil, List.sum_nil] at hT
+    omega
+
+/-- Non-vacuity: a trace of seven samples with four runs; all counts together give 7, with the
+    ambiguous dwells excluded `7 - 2 - 1 = 4`. -/
+example : ∃ d d', dwells [0, 0, 1, 1, 1, 0, 2] false = some d ∧ totalCounts d = 7 ∧
+    dwells [0, 0, 1, 1, 1, 0, 2] true = some d' ∧ totalCounts d' = 4 ∧
+    rle [0, 0, 1, 1, 1, 0, 2] = ⟨0, 0, 2⟩ :: ([⟨1, 2, 5⟩, ⟨0, 5, 6⟩] ++ [⟨2, 6, 7⟩]) :=
+  ⟨_, _, rfl, by decide, rfl, by decide, by decide⟩
+
+/-- **Argument check and error branches of `_dwellcounts_from_statepath`**: a path with a NaN label
+    fails the `isfinite` assertion; every other path (the empty one included) gives the dictionary
+    of `dwells_all` — `IndexError` / `ValueError` from the index arithmetic never occur. -/
+theorem dwellsChecked_spec (path : List (Option Int)) (exclude : Bool) :
+    (none ∈ path ∧ dwellsChecked path exclude = .error "Error:AssertionError") ∨
+    (∃ p : List Int, path = p.map some ∧
+      dwellsChecked path exclude = .ok ((uniq p).map fun s =>
+        (s, (((if exclude then (rle p).tail.dropLast else rle p).filter
+          (fun r => r.state = s)).map Run.range)))) := by
+  rcases all_some_or_none path with ⟨p, rfl⟩ | h
+  · right
+    refine ⟨p, rfl, ?_⟩
+    simp only [dwellsChecked, mapM_id_some, dwells_all]
+  · left
+    exact ⟨h, by simp only [dwellsChecked, mapM_id_none path h]⟩
+
+/-- **Argument check of `HiddenMarkovModel.__init__`**: accepted exactly for no initial guess or a
+    model (GMM / HMM) with the requested number of states; `ValueError` for another number of
+    states, `TypeError` for anything else. -/
+theorem initCheck_spec (n : Nat) (g : Guess) :
+    (initCheck n g = none ↔ (g = .none ∨ g = .gmm n ∨ g = .hmm n)) ∧
+    (initCheck n g = some "ValueError" ↔ ∃ m, m ≠ n ∧ (g = .gmm m ∨ g = .hmm m)) ∧
+    (initCheck n g = some "TypeError" ↔ g = .other) := by
+  cases g with
+  | none => simp [initCheck]
+  | other => simp [initCheck]
+  | gmm m =>
+    by_cases h : m = n
+    · subst h; simp [initCheck]
+    · simp [initCheck, h]
+  | hmm m =>
+    by_cases h : m = n
+    · subst h; simp [initCheck]
+    · simp [initCheck, h]
+
 /-! ## Forward–backward -/
 
 /-- The product of the scaling factors is the exact likelihood `Σ_paths P(path, y)` (all `K^T` state
@@ -179,13 +259,290 @@ theorem xi_exact (K : Nat) (pi : Nat → Rat) (A : Nat → Nat → Rat) (B : Lis
     simp only [FB.likelihood]
     exact xi_exact_aux K pi A b0 bs (hc _ (by simp)) (fun s hs => hc s (by simp [hs])) t ht i j hi hj
 
-/-
-  ext `em_monotone` (NOT proved; stated for the record, explored only by the harness):
-  for the model `m' = update m (γ, ξ)` obtained from the E-step of `m` on data `y` with all `c_t ≠ 0`,
-  `likelihood m' y ≥ likelihood m y` (Jensen's inequality for the auxiliary function `Q(m, m')`
-  plus the fact that `π' = γ_0`, `A' = Σξ/Σγ`, `μ' = Σγx/Σγ`, `σ'² = Σγ(x-μ')²/Σγ` maximise `Q`).
-  It needs `Real.log`/`Real.exp` for the Gaussian emissions, which the rational model does not have.
--/
+/-! ## Deepening round D: the code establishes the hypotheses of the theorems above -/
+
+/-- For every model whose parameters are probability weights (`π ≥ 0` with a positive total, `A ≥ 0`
+    with a positive total in every row — zero entries allowed) and whose emission densities are
+    positive (every Gaussian density is), **every scaling factor `c_t` the forward pass computes is
+    positive**: the hypothesis `c_t ≠ 0` of `likelihood_exact`, `gamma_normalised`, `gamma_exact`,
+    `xi_exact`, `update_normalised` is established by the code itself. -/
+theorem scaling_positive (K : Nat) (pi : Nat → Rat) (A : Nat → Nat → Rat) (B : List Vec) (r : FB)
+    (h : forwardBackward K pi A B = some r) (hp : posModel K pi A B = true) :
+    ∀ s ∈ r.steps, 0 < s.c := by
+  cases B with
+  | nil => simp [forwardBackward] at h
+  | cons b0 bs =>
+    simp only [forwardBackward, Option.some.injEq] at h
+    subst h
+    exact (fb_pos K pi A b0 bs hp).1
+
+/-- Under the same conditions the posteriors are probabilities: `γ_t(i) ≥ 0`, `ξ_t(i,j) ≥ 0`
+    (with `gamma_normalised`: every `γ_t` is a distribution over the states). -/
+theorem posteriors_nonneg (K : Nat) (pi : Nat → Rat) (A : Nat → Nat → Rat) (B : List Vec) (r : FB)
+    (h : forwardBackward K pi A B = some r) (hp : posModel K pi A B = true) :
+    (∀ g ∈ r.gammas, ∀ i, i < K → 0 ≤ atR g i) ∧
+    (∀ x ∈ r.xis, ∀ i j, i < K → j < K → 0 ≤ atR (x.getD i []) j) := by
+  cases B with
+  | nil => simp [forwardBackward] at h
+  | cons b0 bs =>
+    simp only [forwardBackward, Option.some.injEq] at h
+    subst h
+    exact ⟨(fb_pos K pi A b0 bs hp).2.1, (fb_pos K pi A b0 bs hp).2.2.1⟩
+
+/-- A state that is possible initially (`π_i > 0`) has positive occupancy before the last time point
+    as soon as the trace has two samples: the denominator of row `i` of the updated transition
+    matrix is not zero. -/
+theorem occupancy_positive (K : Nat) (pi : Nat → Rat) (A : Nat → Nat → Rat) (B : List Vec) (r : FB)
+    (h : forwardBackward K pi A B = some r) (hp : posModel K pi A B = true) (hT : 2 ≤ B.length)
+    (i : Nat) (hi : i < K) (hpi : 0 < pi i) : 0 < occupancy r.gammas i := by
+  obtain ⟨hlen, _⟩ := gamma_normalised K pi A B r h
+    (fun s hs => ne_of_gt (scaling_positive K pi A B r h hp s hs))
+  have hnn := (posteriors_nonneg K pi A B r h hp).1
+  have hhead : 0 < atR (r.gammas.headD []) i := by
+    cases B with
+    | nil => simp [forwardBackward] at h
+    | cons b0 bs =>
+      simp only [forwardBackward, Option.some.injEq] at h
+      subst h
+      exact (fb_pos K pi A b0 bs hp).2.2.2 i hi hpi
+  match hg : r.gammas, hlen, hnn, hhead with
+  | [], hlen, _, _ => simp at hlen; omega
+  | [_], hlen, _, _ => simp at hlen; omega
+  | g0 :: g1 :: gs, _, hnn, hhead =>
+    simp only [occupancy, sumT, List.dropLast_cons_cons, List.map_cons, List.sum_cons, List.headD_cons] at hhead ⊢
+    have : 0 ≤ sumT (g1 :: gs).dropLast (fun g => atR g i) :=
+      sumT_nonneg _ _ (fun g hg' => hnn g (List.mem_cons_of_mem _ (List.mem_of_mem_dropLast hg')) i hi)
+    simp only [sumT] at this
+    linarith
+
+/-- **Hypothesis-free form** of the inference clauses for the models the property speaks about
+    (probability weights, positive emission densities): the reported likelihood is the sum over all
+    `K^T` paths, every `γ_t` is a distribution, `γ` and `ξ` are the exact posteriors. -/
+theorem inference_exact_of_posModel (K : Nat) (pi : Nat → Rat) (A : Nat → Nat → Rat) (B : List Vec) (r : FB)
+    (h : forwardBackward K pi A B = some r) (hp : posModel K pi A B = true) :
+    r.likelihood = likelihoodSpec K pi A B ∧ 0 < r.likelihood ∧
+    (∀ g ∈ r.gammas, sumK K (atR g) = 1 ∧ ∀ i, i < K → 0 ≤ atR g i) ∧
+    (∀ t i, t < B.length → i < K →
+      atR (r.gammas.getD t []) i * r.likelihood = pinnedSpec K pi A B t i) ∧
+    (∀ t i j, t + 1 < B.length → i < K → j < K →
+      atR (((r.xis.getD t []).getD i [])) j * r.likelihood = pinned2Spec K pi A B t i j) := by
+  have hpos := scaling_positive K pi A B r h hp
+  have hc : ∀ s ∈ r.steps, s.c ≠ 0 := fun s hs => ne_of_gt (hpos s hs)
+  refine ⟨likelihood_exact K pi A B r h hc, prodL_pos _ (fun x hx => by
+      obtain ⟨s, hs, rfl⟩ := List.mem_map.mp hx; exact hpos s hs), ?_,
+    fun t i ht hi => gamma_exact K pi A B r h hc t ht i hi,
+    fun t i j ht hi hj => xi_exact K pi A B r h hc t ht i j hi hj⟩
+  intro g hg
+  exact ⟨(gamma_normalised K pi A B r h hc).2 g hg, (posteriors_nonneg K pi A B r h hp).1 g hg⟩
+
+/-- **Hypothesis-free form** of the normalisation clause of a Baum–Welch step: for a trace of at
+    least two samples and a model in which every initial state is possible, `π'` and **every** row of
+    `A'` sum to one (no occupancy side condition). -/
+theorem update_normalised_of_posModel (K : Nat) (pi : Nat → Rat) (A : Nat → Nat → Rat) (B : List Vec)
+    (r : FB) (h : forwardBackward K pi A B = some r) (hp : posModel K pi A B = true)
+    (hT : 2 ≤ B.length) (hpi : ∀ i, i < K → 0 < pi i) :
+    sumK K (atR (updPi r.gammas)) = 1 ∧
+    ∀ i, i < K → sumK K (atR ((updA K r.gammas r.xis).getD i [])) = 1 := by
+  have hc : ∀ s ∈ r.steps, s.c ≠ 0 := fun s hs => ne_of_gt (scaling_positive K pi A B r h hp s hs)
+  obtain ⟨h1, h2⟩ := update_normalised K pi A B r h hc
+  exact ⟨h1, fun i hi => h2 i hi (ne_of_gt (occupancy_positive K pi A B r h hp hT i hi (hpi i hi)))⟩
+
+/-- Non-vacuity of `posModel` (a model with zero entries in `π` and `A`), and the conclusions on it. -/
+example :
+    posModel 2 (atR [1, 0]) (fnOfRows [[9/10, 1/10], [0, 1]]) [[1/2, 1/3], [1/5, 1/7], [1/3, 1/2]] = true ∧
+    ∃ r, forwardBackward 2 (atR [1, 0]) (fnOfRows [[9/10, 1/10], [0, 1]])
+        [[1/2, 1/3], [1/5, 1/7], [1/3, 1/2]] = some r ∧ (∀ s ∈ r.steps, 0 < s.c) ∧
+      0 < occupancy r.gammas 0 := by
+  refine ⟨by decide +kernel, _, rfl, ?_, ?_⟩ <;> decide +kernel
+
+/-- The hypotheses are needed (kernel-checked witnesses).
+    (1) An observation that is impossible under the model (`B_0 = 0` where `π > 0`): `c_0 = 0`, and
+        `γ_0` sums to 0, not 1 (the code returns NaN).
+    (2) A trace of ONE sample: the occupancy before the last time point is an empty sum, every row
+        of `A'` is `0/0` (the model's total division gives 0, the code NaN) — not normalised.
+    (3) A state that is impossible initially and unreachable (`π_1 = 0`, `A_{01} = 0`): its
+        occupancy is 0 and row 1 of `A'` is `0/0` although every `c_t > 0`. -/
+theorem hypotheses_needed :
+    (∃ r, forwardBackward 2 (atR [1, 0]) (fnOfRows [[1/2, 1/2], [1/2, 1/2]]) [[0, 1], [1, 1]] = some r ∧
+      (∃ s ∈ r.steps, s.c = 0) ∧ ∃ g ∈ r.gammas, sumK 2 (atR g) ≠ 1) ∧
+    (∃ r, forwardBackward 2 (atR [1/2, 1/2]) (fnOfRows [[1/2, 1/2], [1/2, 1/2]]) [[1/3, 1/5]] = some r ∧
+      posModel 2 (atR [1/2, 1/2]) (fnOfRows [[1/2, 1/2], [1/2, 1/2]]) [[1/3, 1/5]] = true ∧
+      sumK 2 (atR ((updA 2 r.gammas r.xis).getD 0 [])) ≠ 1) ∧
+    (∃ r, forwardBackward 2 (atR [1, 0]) (fnOfRows [[1, 0], [1/2, 1/2]]) [[1/3, 1/5], [1/2, 1/7]] = some r ∧
+      posModel 2 (atR [1, 0]) (fnOfRows [[1, 0], [1/2, 1/2]]) [[1/3, 1/5], [1/2, 1/7]] = true ∧
+      occupancy r.gammas 1 = 0 ∧ sumK 2 (atR ((updA 2 r.gammas r.xis).getD 1 [])) ≠ 1) := by
+  refine ⟨⟨_, rfl, ?_, ?_⟩, ⟨_, rfl, ?_, ?_⟩, ⟨_, rfl, ?_, ?_, ?_⟩⟩ <;> decide +kernel
+
+/-! ## Baum–Welch does not decrease the likelihood (deepening round D) -/
+
+/-- **`em_monotone`.**  Likelihood, posteriors and re-estimation over ℝ, every sum over ALL `K^T`
+    state paths (`EM.LR`, `EM.G = L·γ`, `EM.X = L·ξ`, defined position by position in
+    `Lemmas/C16EM`): for a Gaussian-emission model with probability weights `π`, `A` (zero entries
+    allowed; totals at most one — exact normalisation is what `update_normalised` gives), variances
+    `v > 0`, on any observations `x` and any trace length `T ≥ 1`, the model re-estimated by the
+    formulas of `ClassicHmm.update` from the exact posteriors — `π' = γ_0`, `A' = Σ_t ξ_t / Σ_{t<T-1} γ_t`,
+    `μ' = Σγx/Σγ`, `σ'² = Σγ(x-μ')²/Σγ` — has a likelihood that is **not smaller**.  Hypothesis: no
+    re-estimated variance of an occupied state is zero (variance collapse: the code returns an
+    infinite precision there and the likelihood is unbounded). -/
+theorem em_monotone (K T : ℕ) (π : ℕ → ℝ) (A : ℕ → ℕ → ℝ) (x μ v : ℕ → ℝ) (hT : 0 < T)
+    (hπ : ∀ i, i < K → 0 ≤ π i) (hA : ∀ i j, i < K → j < K → 0 ≤ A i j)
+    (hπ1 : ∑ i ∈ Finset.range K, π i ≤ 1) (hA1 : ∀ i, i < K → ∑ j ∈ Finset.range K, A i j ≤ 1)
+    (hv : ∀ j, j < K → 0 < v j)
+    (hv' : ∀ j, j < K → 0 < EM.wsum K T π A x μ v j → 0 < EM.newVar K T π A x μ v j) :
+    EM.LR K T π A (EM.gaussTab x μ v)
+      ≤ EM.LR K T (EM.newPi K T π A (EM.gaussTab x μ v)) (EM.newA K T π A (EM.gaussTab x μ v))
+          (EM.gaussTab x (EM.newMu K T π A x μ v) (EM.newVar K T π A x μ v)) :=
+  EM.em_monotone_gaussian hT hπ hA hπ1 hA1 hv hv'
+
+/-- `em_monotone` **without the side condition**: for strictly positive `π`, `A` (totals at most
+    one) and observations that are not all equal, every re-estimated variance is positive — the
+    code establishes the hypothesis — and the likelihood does not decrease. -/
+theorem em_monotone_of_pos (K T : ℕ) (π : ℕ → ℝ) (A : ℕ → ℕ → ℝ) (x μ v : ℕ → ℝ) (hT : 0 < T)
+    (hπ : ∀ i, i < K → 0 < π i) (hA : ∀ i j, i < K → j < K → 0 < A i j)
+    (hπ1 : ∑ i ∈ Finset.range K, π i ≤ 1) (hA1 : ∀ i, i < K → ∑ j ∈ Finset.range K, A i j ≤ 1)
+    (hv : ∀ j, j < K → 0 < v j) (t1 t2 : ℕ) (h1 : t1 < T) (h2 : t2 < T) (hx : x t1 ≠ x t2) :
+    EM.LR K T π A (EM.gaussTab x μ v)
+      ≤ EM.LR K T (EM.newPi K T π A (EM.gaussTab x μ v)) (EM.newA K T π A (EM.gaussTab x μ v))
+          (EM.gaussTab x (EM.newMu K T π A x μ v) (EM.newVar K T π A x μ v)) :=
+  EM.em_monotone_of_pos hT hπ hA hπ1 hA1 hv h1 h2 hx
+
+/-- Non-vacuity of `em_monotone` / `em_monotone_of_pos`: two states, three observations `0, 1, 2`,
+    `π = (1/2, 1/2)`, `A = ((3/4, 1/4), (1/4, 3/4))`, means `(0, 2)`, unit variances — every
+    hypothesis holds (the side condition of `em_monotone` by `em_monotone_of_pos`). -/
+example :
+    let π : ℕ → ℝ := fun _ => 1 / 2
+    let A : ℕ → ℕ → ℝ := fun i j => if i = j then 3 / 4 else 1 / 4
+    let x : ℕ → ℝ := fun t => t
+    let μ : ℕ → ℝ := fun j => 2 * j
+    let v : ℕ → ℝ := fun _ => 1
+    (∀ i, i < 2 → 0 < π i) ∧ (∀ i j, i < 2 → j < 2 → 0 < A i j) ∧
+    ∑ i ∈ Finset.range 2, π i ≤ 1 ∧ (∀ i, i < 2 → ∑ j ∈ Finset.range 2, A i j ≤ 1) ∧
+    (∀ j, j < 2 → 0 < v j) ∧ x 0 ≠ x 1 ∧
+    EM.LR 2 3 π A (EM.gaussTab x μ v)
+      ≤ EM.LR 2 3 (EM.newPi 2 3 π A (EM.gaussTab x μ v)) (EM.newA 2 3 π A (EM.gaussTab x μ v))
+          (EM.gaussTab x (EM.newMu 2 3 π A x μ v) (EM.newVar 2 3 π A x μ v)) := by
+  intro π A x μ v
+  have h1 : ∀ i, i < 2 → 0 < π i := fun _ _ => by norm_num [π]
+  have h2 : ∀ i j, i < 2 → j < 2 → 0 < A i j := fun i j _ _ => by
+    by_cases h : i = j <;> simp [A, h]
+  have h3 : ∑ i ∈ Finset.range 2, π i ≤ 1 := by norm_num [π, Finset.sum_range_succ]
+  have h4 : ∀ i, i < 2 → ∑ j ∈ Finset.range 2, A i j ≤ 1 := by
+    intro i hi
+    have : i = 0 ∨ i = 1 := by omega
+    rcases this with rfl | rfl <;> norm_num [A, Finset.sum_range_succ]
+  have h5 : ∀ j, j < 2 → 0 < v j := fun _ _ => by norm_num [v]
+  have h6 : x 0 ≠ x 1 := by norm_num [x]
+  exact ⟨h1, h2, h3, h4, h5, h6,
+    em_monotone_of_pos 2 3 π A x μ v (by norm_num) h1 h2 h3 h4 h5 0 1 (by norm_num) (by norm_num) h6⟩
+
+/-- The same for ANY positive emission tables `b`, `b'` (not only Gaussian ones) for which the
+    expected emission log-density does not go down: the structural part of the ascent. -/
+theorem em_monotone_general (K T : ℕ) (π : ℕ → ℝ) (A : ℕ → ℕ → ℝ) (b b' : ℕ → ℕ → ℝ) (hT : 0 < T)
+    (w : EM.Weights K T π A b)
+    (hπ1 : ∑ i ∈ Finset.range K, π i ≤ 1) (hA1 : ∀ i, i < K → ∑ j ∈ Finset.range K, A i j ≤ 1)
+    (hb' : ∀ t j, t < T → j < K → 0 < b' t j)
+    (hemit : 0 ≤ ∑ t ∈ Finset.range T, ∑ j ∈ Finset.range K,
+      EM.G K T π A b t j * Real.log (b' t j / b t j)) :
+    EM.LR K T π A b ≤ EM.LR K T (EM.newPi K T π A b) (EM.newA K T π A b) b' :=
+  EM.em_general hT w hπ1 hA1 b' hb' hemit
+
+/-- **The tie of `em_monotone` to the executable model.**  For the rational model (the one the
+    harness runs against `forward_backward` / `calculate_temporary_variables` / `ClassicHmm.update`)
+    on a model with probability weights and positive emission densities: the real-valued
+    likelihood and posteriors of `em_monotone` are the casts of what the scaled recursions compute
+    (`L = ∏ c_t`, `γ`, `ξ`). -/
+theorem em_link (K : Nat) (pi : Nat → Rat) (A : Nat → Nat → Rat) (B : List Vec) (r : FB)
+    (h : forwardBackward K pi A B = some r) (hp : posModel K pi A B = true) :
+    EM.LR K B.length (EM.cpi pi) (EM.cA A) (EM.tabR B) = ((r.likelihood : ℚ) : ℝ) ∧
+    (∀ t i, t < B.length → i < K →
+      EM.G K B.length (EM.cpi pi) (EM.cA A) (EM.tabR B) t i
+        = ((atR (r.gammas.getD t []) i : ℚ) : ℝ) * ((r.likelihood : ℚ) : ℝ)) ∧
+    (∀ t i j, t + 1 < B.length → i < K → j < K →
+      EM.X K B.length (EM.cpi pi) (EM.cA A) (EM.tabR B) t i j
+        = ((atR ((r.xis.getD t []).getD i []) j : ℚ) : ℝ) * ((r.likelihood : ℚ) : ℝ)) := by
+  have hB : B ≠ [] := by rintro rfl; simp [forwardBackward] at h
+  obtain ⟨e1, _, _, e4, e5⟩ := inference_exact_of_posModel K pi A B r h hp
+  refine ⟨by rw [e1, EM.cast_likelihoodSpec hB], fun t i ht hi => ?_, fun t i j ht hi hj => ?_⟩
+  · rw [← EM.cast_pinnedSpec hB ht, ← e4 t i ht hi]; push_cast; ring
+  · rw [← EM.cast_pinned2Spec hB ht, ← e5 t i j ht hi hj]; push_cast; ring
+
+/-- … and the re-estimated parameters of `em_monotone` (`π'`, `A'`, `μ'`, `σ'²` over ℝ from the
+    path sums) are the casts of what the executable model's `updPi`, `updA`, `updMean`, `updVar`
+    return (the functions compared with `ClassicHmm.update` on every run). -/
+theorem em_link_update (K : Nat) (pi : Nat → Rat) (A : Nat → Nat → Rat) (B : List Vec) (r : FB)
+    (data : List Rat) (h : forwardBackward K pi A B = some r) (hp : posModel K pi A B = true)
+    (hd : data.length = B.length) :
+    (∀ i, i < K → EM.newPi K B.length (EM.cpi pi) (EM.cA A) (EM.tabR B) i
+      = ((atR (updPi r.gammas) i : ℚ) : ℝ)) ∧
+    (∀ i j, i < K → j < K → EM.newA K B.length (EM.cpi pi) (EM.cA A) (EM.tabR B) i j
+      = ((fnOfRows (updA K r.gammas r.xis) i j : ℚ) : ℝ)) ∧
+    (∀ j, j < K →
+      EM.newMuB K B.length (EM.cpi pi) (EM.cA A) (EM.tabR B) (fun t => ((data.getD t 0 : ℚ) : ℝ)) j
+        = ((atR (updMean K r.gammas data) j : ℚ) : ℝ)) ∧
+    (∀ j, j < K →
+      EM.newVarB K B.length (EM.cpi pi) (EM.cA A) (EM.tabR B) (fun t => ((data.getD t 0 : ℚ) : ℝ)) j
+        = ((atR (updVar K r.gammas data) j : ℚ) : ℝ)) := by
+  have hB : B ≠ [] := by rintro rfl; simp [forwardBackward] at h
+  have hT : 0 < B.length := List.length_pos_of_ne_nil hB
+  obtain ⟨l1, l2, l3⟩ := em_link K pi A B r h hp
+  have hL0 := (inference_exact_of_posModel K pi A B r h hp).2.1
+  have hLne : ((r.likelihood : ℚ) : ℝ) ≠ 0 := by exact_mod_cast ne_of_gt hL0
+  have hgl := (gamma_normalised K pi A B r h
+    (fun s hs => ne_of_gt (scaling_positive K pi A B r h hp s hs))).1
+  have hxl : r.xis.length = B.length - 1 := by
+    have := congrArg List.length (xi_marginal K pi A B r h)
+    simpa [hgl] using this
+  refine ⟨fun i hi => EM.pi_link r.gammas r.likelihood hLne l1 (l2 0 i hT hi),
+    fun i j hi hj => EM.A_link r.gammas r.xis r.likelihood hLne hxl hgl hi hj
+      (fun t ht => l2 t i ht hi) (fun t ht => l3 t i j ht hi hj),
+    fun j hj => (EM.mean_link r.gammas data r.likelihood hLne hgl hd hj (fun t ht => l2 t j ht hj)).symm,
+    fun j hj => (EM.var_link r.gammas data r.likelihood hLne hgl hd hj (fun t ht => l2 t j ht hj)).symm⟩
+
+/-- **Ascent for the executable model, emission table kept**: for every model with probability
+    weights (totals at most one) and positive emission densities — any table `B`, Gaussian or not —
+    replacing `π`, `A` by what `ClassicHmm.update` computes from the forward–backward run
+    (`updPi`, `updA`) does not decrease the exact likelihood `Σ_paths P(path, y)`. -/
+theorem em_monotone_tables (K : Nat) (pi : Nat → Rat) (A : Nat → Nat → Rat) (B : List Vec) (r : FB)
+    (h : forwardBackward K pi A B = some r) (hp : posModel K pi A B = true)
+    (hπ1 : sumK K pi ≤ 1) (hA1 : ∀ i, i < K → sumK K (A i) ≤ 1) :
+    likelihoodSpec K pi A B
+      ≤ likelihoodSpec K (atR (updPi r.gammas)) (fnOfRows (updA K r.gammas r.xis)) B := by
+  have hB : B ≠ [] := by rintro rfl; simp [forwardBackward] at h
+  obtain ⟨e1, e2, _, e4, e5⟩ := inference_exact_of_posModel K pi A B r h hp
+  have hgl := (gamma_normalised K pi A B r h
+    (fun s hs => ne_of_gt (scaling_positive K pi A B r h hp s hs))).1
+  have hxl : r.xis.length = B.length - 1 := by
+    have := congrArg List.length (xi_marginal K pi A B r h)
+    simpa [hgl] using this
+  exact EM.em_tables_of_exact K pi A B r.gammas r.xis r.likelihood hB hp hπ1 hA1 e1 e2 hxl hgl
+    (fun t i ht hi => e4 t i ht hi) (fun t i j ht hi hj => e5 t i j ht hi hj)
+
+/-- The same about the function the driver runs (`c16.emtab`). -/
+theorem emTables_mono (K : Nat) (pi : Nat → Rat) (A : Nat → Nat → Rat) (B : List Vec) (l0 l1 : Rat)
+    (h : emTables K pi A B = some (l0, l1)) (hp : posModel K pi A B = true)
+    (hs : subStochastic K pi A = true) : l0 ≤ l1 := by
+  unfold emTables at h
+  cases hr : forwardBackward K pi A B with
+  | none => rw [hr] at h; simp at h
+  | some r =>
+    rw [hr] at h
+    simp only [Option.map_some, Option.some.injEq, Prod.mk.injEq] at h
+    simp only [subStochastic, Bool.and_eq_true, List.all_eq_true, List.mem_range, decide_eq_true_eq] at hs
+    rw [← h.1, ← h.2]
+    exact em_monotone_tables K pi A B r hr hp hs.1 hs.2
+
+/-- Non-vacuity of `em_monotone_tables` (the model of the examples above, with a zero in `π` and
+    in `A`): the exact likelihood strictly increases. -/
+example :
+    posModel 2 (atR [1, 0]) (fnOfRows [[9/10, 1/10], [0, 1]]) [[1/2, 1/3], [1/5, 1/7], [1/3, 1/2]] = true ∧
+    sumK 2 (atR [1, 0]) ≤ 1 ∧ (∀ i, i < 2 → sumK 2 (fnOfRows [[9/10, 1/10], [0, 1]] i) ≤ 1) ∧
+    ∃ r, forwardBackward 2 (atR [1, 0]) (fnOfRows [[9/10, 1/10], [0, 1]])
+        [[1/2, 1/3], [1/5, 1/7], [1/3, 1/2]] = some r ∧
+      likelihoodSpec 2 (atR [1, 0]) (fnOfRows [[9/10, 1/10], [0, 1]]) [[1/2, 1/3], [1/5, 1/7], [1/3, 1/2]]
+        < likelihoodSpec 2 (atR (updPi r.gammas)) (fnOfRows (updA 2 r.gammas r.xis))
+            [[1/2, 1/3], [1/5, 1/7], [1/3, 1/2]] := by
+  refine ⟨by decide +kernel, by decide +kernel, by decide +kernel, _, rfl, by decide +kernel⟩
+
 
 /-- Non-vacuity: a two-state model on three observations; every `c_t ≠ 0`, and the likelihood is the
     36000-th part of 1031 on both sides. -/
@@ -198,5 +555,83 @@ example :
       pinnedSpec 2 (atR [1/2, 1/2]) (fnOfRows [[9/10, 1/10], [2/10, 8/10]])
         [[1/2, 1/3], [1/5, 1/7], [1/3, 1/2]] 1 0 = 217 / 12000 := by
   refine ⟨_, rfl, ?_, ?_, ?_, ?_, ?_⟩ <;> decide +kernel
+
+/-! ## Baum–Welch of the ALGORITHM over ℝ (deepening round D)
+
+  `Gen.*` (file `Lemmas/C16F`, generated) is the forward–backward model of `Model/C16` with `Rat`
+  replaced by an arbitrary field, `GenR.bwStep` one iteration of `baum_welch`: the Gaussian
+  emission table `B[t][j] = N(x_t; μ_j, σ_j²)`, the scaled `forward_backward` +
+  `calculate_temporary_variables`, then `ClassicHmm.update`; `GenR.bwLik` the likelihood the code
+  reports, `∏ c_t`. -/
+
+/-- **The generic algorithm at `F = ℚ` is the executable model** that the driver runs and the
+    harness compares with the code on every run: same scaling factors, `γ`, `ξ`, likelihood and
+    re-estimated parameters (definitional unfolding, structure by structure). -/
+theorem generic_model_is_executable_model (K : ℕ) (pi : ℕ → ℚ) (A : ℕ → ℕ → ℚ) (B : List Vec)
+    (gammas : List Vec) (xis : List (List Vec)) (data : List ℚ) (r : FB) :
+    Gen.forwardBackward K pi A B
+      = (forwardBackward K pi A B).map (fun r => ⟨r.steps.map GenQ.toStep, r.gammas, r.xis⟩) ∧
+    Gen.FB.likelihood (⟨r.steps.map GenQ.toStep, r.gammas, r.xis⟩ : Gen.FB ℚ) = r.likelihood ∧
+    Gen.updPi gammas = updPi gammas ∧ Gen.updA K gammas xis = updA K gammas xis ∧
+    Gen.updMean K gammas data = updMean K gammas data ∧ Gen.updVar K gammas data = updVar K gammas data :=
+  ⟨GenQ.forwardBackward_eq K pi A B, GenQ.likelihood_eq r, GenQ.update_eq K gammas xis data⟩
+
+/-- **One Baum–Welch iteration does not decrease the likelihood and keeps `π` and every row of `A`
+    normalised** — for the algorithm as coded, in exact real arithmetic: for every number of states,
+    every trace of at least two samples that are not all equal, and every model with strictly
+    positive `π`, `A` (totals at most one) and positive variances, the model after `bwStep` again
+    satisfies these conditions (with totals exactly one), and `∏ c_t` of the new model is at least
+    `∏ c_t` of the old one (which is positive, so `Σ log c_t` does not decrease either). -/
+theorem baum_welch_step_monotone (K : ℕ) (hK : 0 < K) (x : List ℝ) (hT : 2 ≤ x.length) (t1 t2 : ℕ)
+    (h1 : t1 < x.length) (h2 : t2 < x.length) (hx : x.getD t1 0 ≠ x.getD t2 0)
+    (p : GenR.Params) (hp : GenR.Inv K p) :
+    GenR.Inv K (GenR.bwStep K x p) ∧ GenR.bwLik K x p ≤ GenR.bwLik K x (GenR.bwStep K x p) ∧
+    0 < GenR.bwLik K x p ∧ ∑ i ∈ Finset.range K, (GenR.bwStep K x p).π i = 1 ∧
+    ∀ i, i < K → ∑ j ∈ Finset.range K, (GenR.bwStep K x p).A i j = 1 :=
+  GenR.bw_step hK x hT h1 h2 hx p hp
+
+/-- **The same with zero probabilities allowed** (`π, A ≥ 0` with positive totals at most one): unless
+    the step runs into one of the two documented degenerate outcomes — a row of `A'` that is `0/0`
+    (state never occupied before the last sample; the row total of the model's total division is
+    then 0) or a re-estimated variance that is not positive — the likelihood the algorithm reports
+    does not decrease and `π'` sums to one.  Any trace length `T ≥ 1`. -/
+theorem baum_welch_step_monotone_zeros (K : ℕ) (x : List ℝ) (hT : 1 ≤ x.length) (p : GenR.Params)
+    (hp : GenR.Inv0 K p)
+    (hrow' : ∀ i, i < K → 0 < ∑ j ∈ Finset.range K, (GenR.bwStep K x p).A i j)
+    (hvar' : ∀ j, j < K → 0 < (GenR.bwStep K x p).v j) :
+    GenR.bwLik K x p ≤ GenR.bwLik K x (GenR.bwStep K x p) ∧ 0 < GenR.bwLik K x p ∧
+    ∑ i ∈ Finset.range K, (GenR.bwStep K x p).π i = 1 :=
+  GenR.bw_step0 x hT p hp hrow' hvar'
+
+/-- Non-vacuity of the two side conditions: every strictly positive model on a trace of ≥ 2 samples
+    that are not all equal meets them (by `baum_welch_step_monotone`); for a model WITH zero entries
+    see the kernel-evaluated instance next to `em_monotone_tables`. -/
+example (K : ℕ) (hK : 0 < K) (x : List ℝ) (hT : 2 ≤ x.length) (t1 t2 : ℕ)
+    (h1 : t1 < x.length) (h2 : t2 < x.length) (hx : x.getD t1 0 ≠ x.getD t2 0)
+    (p : GenR.Params) (hp : GenR.Inv K p) :
+    (∀ i, i < K → 0 < ∑ j ∈ Finset.range K, (GenR.bwStep K x p).A i j) ∧
+    (∀ j, j < K → 0 < (GenR.bwStep K x p).v j) := by
+  obtain ⟨hi, _, _, _, hrow⟩ := baum_welch_step_monotone K hK x hT t1 t2 h1 h2 hx p hp
+  exact ⟨fun i h => by rw [hrow i h]; exact zero_lt_one, hi.v_pos⟩
+
+/-- … hence along ALL iterations: the sequence of reported likelihoods is monotone. -/
+theorem baum_welch_monotone (K : ℕ) (hK : 0 < K) (x : List ℝ) (hT : 2 ≤ x.length) (t1 t2 : ℕ)
+    (h1 : t1 < x.length) (h2 : t2 < x.length) (hx : x.getD t1 0 ≠ x.getD t2 0)
+    (p : GenR.Params) (hp : GenR.Inv K p) :
+    Monotone (fun n => GenR.bwLik K x ((GenR.bwStep K x)^[n] p)) ∧
+    ∀ n, GenR.Inv K ((GenR.bwStep K x)^[n] p) :=
+  ⟨GenR.bw_monotone_le hK x hT h1 h2 hx p hp, fun n => (GenR.bw_monotone hK x hT h1 h2 hx p hp n).1⟩
+
+/-- Non-vacuity: two states, the trace `0, 1, 2`, `π = (1/2, 1/2)`, `A = ((3/4, 1/4), (1/4, 3/4))`,
+    means `(0, 2)`, unit variances meet every hypothesis. -/
+example : ∃ p : GenR.Params, GenR.Inv 2 p ∧ (2 ≤ ([0, 1, 2] : List ℝ).length) ∧
+    ([0, 1, 2] : List ℝ).getD 0 0 ≠ ([0, 1, 2] : List ℝ).getD 1 0 := by
+  refine ⟨⟨fun _ => 1 / 2, fun i j => if i = j then 3 / 4 else 1 / 4, fun j => 2 * j, fun _ => 1⟩,
+    ⟨fun _ _ => by norm_num, fun i j _ _ => by by_cases h : i = j <;> simp [h], ?_, ?_,
+      fun _ _ => by norm_num⟩, by simp, by simp⟩
+  · norm_num [Finset.sum_range_succ]
+  · intro i hi
+    have : i = 0 ∨ i = 1 := by omega
+    rcases this with rfl | rfl <;> norm_num [Finset.sum_range_succ]
 
 end Verif.C16
